@@ -29,40 +29,78 @@ def generic_slot(L):
     return None
 
 
-def item_src(L, entry, order=0, generic=False):
+GUISES = ["paren_ty", "alias_ty", "proj_ty", "empty_where", "raw_fields", "foreign_attrs", "macro_ty", "trailing_commas", "param_default", "vis"]
+
+
+def item_src(L, entry, order=0, generic=False, guise=()):
+    """the item as a user might write it.  `guise`: purely syntactic variations that mean the same (parenthesised / aliased / projected
+    field types, an empty where-clause, raw field names, foreign attributes between the helper attributes, the item produced by
+    macro_rules! with the field type passed as a `ty` fragment, trailing commas in attribute lists, a defaulted parameter, visibility)"""
     ts = derive_list(L)
     slot = generic_slot(L) if generic else None
-    gp = "<G>" if slot else ""
+    gp = ("<G = %s>" % W if "param_default" in guise else "<G>") if slot else ""
     if order == 1:
         ts = list(reversed(ts))
+    tc = ", " if "trailing_commas" in guise else ""
     if entry == "attr":
-        head = "#[::derive_ex::derive_ex(%s)]" % ", ".join(ts)
+        head = "#[::derive_ex::derive_ex(%s%s)]" % (", ".join(ts), tc)
     elif entry == "derive":
-        head = "#[derive(::derive_ex::Ex)] #[derive_ex(%s)]" % ", ".join(ts)
+        head = "#[derive(::derive_ex::Ex)] #[derive_ex(%s%s)]" % (", ".join(ts), tc)
     else:   # split lists through the derive entry
         k = max(1, len(ts) // 2)
-        head = "#[derive(::derive_ex::Ex)] #[derive_ex(%s)] #[derive_ex(%s)]" % (", ".join(ts[:k]), ", ".join(ts[k:]))
+        mid = " #[allow(dead_code)] " if "foreign_attrs" in guise else " "
+        head = "#[derive(::derive_ex::Ex)] #[derive_ex(%s%s)]%s#[derive_ex(%s)]" % (", ".join(ts[:k]), tc, mid, ", ".join(ts[k:]))
+    if "foreign_attrs" in guise:
+        head = "#[doc = \"item\"] " + head + " #[allow(dead_code)]"
+    wty = W
+    if "macro_ty" in guise and any(o["sel"] == "key" for v in L["variants"] for f in v["fields"] for o in f["cmp"].values()):
+        guise = [g for g in guise if g != "macro_ty"]       # (`$` of a key expression cannot be written inside a macro_rules! body)
+    if "macro_ty" in guise:
+        wty = "$t"
+    elif "paren_ty" in guise:
+        wty = "(%s)" % W
+    elif "alias_ty" in guise:
+        wty = "Wa"
+    elif "proj_ty" in guise:
+        wty = "<%s as ::dx_support::Idt>::T" % W
+    vis = "pub(crate) " if "vis" in guise else "pub "
 
     def fields(v, vi=0):
         fs = []
         for j, f in enumerate(v["fields"]):
             f = dict(f, kty="eq")
             a = cf.attrs_src(f, L["mode"])
-            fs.append("%s %s%s" % (a, ("pub f%d: " % j) if v["shape"] == "named" else "pub " if L["kind"] == "struct" else "", "G" if slot == (vi, j) else W))
+            if "trailing_commas" in guise:
+                a = a.replace(")]", ", )]")
+            if "foreign_attrs" in guise and a:
+                parts = a.split(" #[")
+                a = "#[doc = \"f\"] " + " #[allow(unused)] #[".join(parts) + " #[cfg_attr(all(), allow(dead_code))]"
+            nm = ("r#f%d" % j) if "raw_fields" in guise else ("f%d" % j)
+            fs.append("%s %s%s" % (a, ("%s%s: " % (vis, nm)) if v["shape"] == "named" else vis if L["kind"] == "struct" else "", "G" if slot == (vi, j) else wty))
         if L["kind"] == "enum":
-            fs = [x.replace("pub ", "") for x in fs]
+            fs = [x.replace(vis, "") for x in fs]
         if v["shape"] == "named":
             return " { " + ", ".join(fs) + " }"
         if v["shape"] == "tuple":
             return "(" + ", ".join(fs) + ")"
         return ""
+    ew = "empty_where" in guise
     if L["kind"] == "struct":
         v = L["variants"][0]
-        return "%s pub struct Lf%s%s%s" % (head, gp, fields(v), "" if v["shape"] == "named" else ";")
-    vs = []
-    for i, v in enumerate(L["variants"]):
-        vs.append("%s%s%s" % ("#[default] " if L["dvar"] == i + 1 else "", v["name"], fields(v, i)))
-    return "%s pub enum Lf%s { %s }" % (head, gp, ", ".join(vs))
+        if v["shape"] == "named":
+            item = "%s pub struct Lf%s%s%s" % (head, gp, " where" if ew else "", fields(v))
+        else:
+            item = "%s pub struct Lf%s%s%s;" % (head, gp, fields(v), " where" if ew else "")
+    else:
+        vs = []
+        for i, v in enumerate(L["variants"]):
+            fa = "#[doc = \"v\"] " if "foreign_attrs" in guise else ""
+            vs.append("%s%s%s%s" % (fa, "#[default] " if L["dvar"] == i + 1 else "", v["name"], fields(v, i)))
+        item = "%s pub enum Lf%s%s { %s }" % (head, gp, " where" if ew else "", ", ".join(vs))
+    pre = "type Wa = %s; " % W if "alias_ty" in guise else ""
+    if "macro_ty" in guise:
+        return "%smacro_rules! mk_lf { ($t:ty) => { %s } } mk_lf!(%s);" % (pre, item, W)
+    return pre + item
 
 
 def path(L, vi):
@@ -105,12 +143,12 @@ def helpers(L, generic=False):
             % ("\n".join(arms_p), "\n".join(arms_d)))
 
 
-def life_module(idx, L, hist, entry, order=0, variables=("a", "b", "c"), generic=False):
+def life_module(idx, L, hist, entry, order=0, variables=("a", "b", "c"), generic=False, guise=()):
     vs = list(variables)
     n1 = len(L["variants"][0]["fields"])
     first = ctor(L, 1, ["%s(0, %d)" % (W, j) for j in range(n1)])
     pool = "format!(\"{{%s}}\", %s)" % (",".join("\\\"%s\\\":{}" % v for v in vs), ", ".join("proj(&p%s)" % v for v in vs))
-    lines = ["pub mod m%d {" % idx, "    " + item_src(L, entry, order, generic), helpers(L, generic), "    pub fn run() -> String {",
+    lines = ["pub mod m%d {" % idx, "    " + item_src(L, entry, order, generic, guise), helpers(L, generic), "    pub fn run() -> String {",
              "        let mut out = String::new();"]
     for v in vs:
         lines.append("        let mut p%s: LfT = %s;" % (v, first))
